@@ -366,6 +366,55 @@ def r9_pool_names_after_renumbering(idx, r):
                                     for c in ast.walk(g.node)), "_getAssembliesByName:includes-pool", g or f, msg="the assembly-name table must be built over core AND pool assemblies")
 
 
+def r10_positions(idx, r):
+    """(a) Composite.insert places the object at the index it was GIVEN (stationary blocks are re-inserted at their axial index; an index the
+    primitive rewrites puts the block somewhere else).  (b) the two name tables are regenerated over the same population: core, BOL
+    assemblies and the spent-fuel pool.  (c) the pool hands out a location only after testing it against the locations its assemblies occupy."""
+    ins = idx.method("armi.reactor.composites.Composite", "insert")
+    ip = ins.params()[1]
+    reb = [s_ for s_ in iter_stores(ins.node) if isinstance(s_.node, ast.Name) and s_.attr == ip]
+    li = [c for c in iter_calls(ins.node) if norm(c.func) == "self._children.insert"]
+    r.require(not reb and len(li) == 1 and norm(li[0].args[0]) == ip, "Composite.insert:at-the-given-index", ins, node=reb[0].stmt if reb else (li[0] if li else None),
+              msg=f"Composite.insert changes the index it was given (`{norm(reb[0].stmt) if reb else ''}`): a stationary block re-inserted at the top index of an assembly lands one below the "
+                  "top and block order, heights and axial indices are scrambled by every swap")
+
+    def population(call):
+        kw = {k.arg: norm(k.value) for k in call.keywords}
+        pop = set()
+        if kw.get("includeAll") == "True":
+            pop |= {"bol", "sfp"}
+        if kw.get("includeBolAssems") == "True":
+            pop.add("bol")
+        if kw.get("includeSFP") == "True":
+            pop.add("sfp")
+        return pop
+    ga = idx.method(CORE, "_getAssembliesByName")
+    gb = idx.method(CORE, "_genBlocksByName")
+    ca = [c for c in iter_calls(ga.node) if dotted(c.func) == "self.getAssemblies"]
+    cb = [c for c in iter_calls(gb.node) if dotted(c.func) in ("self.getBlocks", "self.getAssemblies")]
+    if len(ca) != 1 or len(cb) != 1:
+        raise AnchorMissing("Core._getAssembliesByName / _genBlocksByName: one getAssemblies / getBlocks call each")
+    pa, pb = population(ca[0]), population(cb[0])
+    r.require(pa == pb == {"bol", "sfp"}, "name-tables:same-population", gb, node=cb[0],
+              msg=f"assembliesByName is regenerated over core+{sorted(pa)} but blocksByName over core+{sorted(pb)}: after a regeneration (normalizeNames, deepcopy, unpickling) "
+                  "a pooled assembly is found by name while its blocks are not")
+    nl = idx.method("armi.reactor.spentFuelPool.SpentFuelPool", "_getNextLocation")
+    env = single_assign_env(nl.node)
+    rets = [x for x in walk_local(nl.node) if isinstance(x, ast.Return) and x.value is not None and norm(x.value) != "None"]
+    if not rets:
+        raise AnchorMissing("SpentFuelPool._getNextLocation: return of a location")
+    for x in rets:
+        okf = False
+        for t, pol in path_conditions(nl.node, x):
+            if isinstance(t, ast.Compare) and len(t.ops) == 1 and ((isinstance(t.ops[0], ast.NotIn) and pol) or (isinstance(t.ops[0], ast.In) and not pol)) and norm(t.left) == norm(x.value):
+                filled = propagate(t.comparators[0], env)
+                if "spatialLocator" in norm(filled) and any(isinstance(g, ast.comprehension) and norm(g.iter) in ("self", "self.getChildren()", "self._children") for g in ast.walk(filled)):
+                    okf = True
+        r.require(okf, "pool:location-tested-against-occupied", nl, node=x,
+                  msg=f"`{norm(x)}` hands out a pool location without testing it against the locations the pool's assemblies occupy: after a stored assembly was re-charged (or with "
+                      "explicitly placed assemblies) the next discharge lands in an occupied cell and two assemblies share one location")
+
+
 def run(idx, chk):
     chk.explanation = (
         "C14: who may write childrenByLocator/assembliesByName/blocksByName; Core.add/removeAssembly touching every table exactly once on "
@@ -386,3 +435,5 @@ def run(idx, chk):
                  necessary="'each assembly sits where the operation put it'")
     chk.run_rule("R14.9", "after the pool's assemblies are renumbered the name tables are rebuilt over core and pool", lambda r: r9_pool_names_after_renumbering(idx, r), floor=2,
                  necessary="'lookups by assembly and block name find every assembly and block in the core or the pool under its current name'")
+    chk.run_rule("R14.10", "insert keeps the given index; both name tables cover core, BOL and pool; the pool tests a location against the occupied ones", lambda r: r10_positions(idx, r), floor=3,
+                 necessary="every location holds at most one assembly; names and blocks of pooled assemblies stay findable; block order is preserved by swaps")
